@@ -73,7 +73,7 @@ func (m *c09LendMon) borrowRatio(b lendtypes.BorrowAsset) (X, Y, thr *big.Rat, c
 			return nil, nil, nil, "", false
 		}
 		thr = new(big.Rat).Mul(thr, c08DecRat(tpar.LiquidationThreshold))
-		class = "inter-pool"
+		class = "inter-pool-via-" + tr.Denom
 	}
 	X = exactValue(b.AmountIn.Amount.BigInt(), pin, in.Decimals)
 	Y = exactValue(b.AmountOut.Amount.Add(b.InterestAccumulated.TruncateInt()).BigInt(), pout, out.Decimals)
@@ -286,7 +286,7 @@ func (m *c09LendMon) borrowRatioAt(pb, b lendtypes.BorrowAsset) (X, Y, thr *big.
 
 func c09LendRun(t *testing.T, rec *ev.Rec, run int) {
 	variant := ev.ShardNo()*3 + run
-	e := c08Setup(t, ev.NewScratch(), rng("C09-lend-setup", variant), run, variant%3, true)
+	e := c08Setup(t, ev.NewScratch(), rng("C09-lend-setup", variant), run, variant%6, true)
 	defer e.c.Close()
 	e.rnd = rng("C09-lend", variant)
 	c := e.c
@@ -364,19 +364,27 @@ func c09LendRun(t *testing.T, rec *ev.Rec, run int) {
 			m.block(gap)
 		}
 	}
-	// slow ramp: collateral prices fall 1.5 % per block, so every position's ratio passes through the band just
-	// below and just above its own threshold with the sweep looking at it in every block
-	for i := 0; i < ev.Pick(45, 120) && !e.panicked; i++ {
-		for _, id := range e.u.Order {
-			if d := e.u.Assets[id].Denom; d == "uatom" || d == "uosmo" {
-				p, _ := e.u.Price(id)
-				e.u.SetPrice(id, p*985/1000+1, true)
-			}
+	// slow ramps: one volatile asset at a time falls 1.5 % per block (the other stays), so every position's ratio
+	// -- also that of an inter-pool borrow whose collateral and debt are the two volatile assets -- passes through
+	// the band just below and just above its own threshold with the sweep looking at it in every block
+	for _, falling := range []string{"uatom", "uosmo"} {
+		for j := 0; j < 8 && !e.panicked; j++ {
+			e.force = []string{"inter-pool", "inter-pool-2"}[j%2]
+			e.txStep()
 		}
-		m.block(6 * time.Second)
-		if i%5 == 0 { // new positions keep entering the band
-			e.txStep()
-			e.txStep()
+		for i := 0; i < ev.Pick(30, 80) && !e.panicked; i++ {
+			for _, id := range e.u.Order {
+				if e.u.Assets[id].Denom == falling {
+					p, _ := e.u.Price(id)
+					e.u.SetPrice(id, p*985/1000+1, true)
+				}
+			}
+			m.block(6 * time.Second)
+			if i%5 == 0 { // new positions keep entering the band
+				e.txStep()
+				e.force = []string{"inter-pool", "inter-pool-2"}[(i/5)%2]
+				e.txStep()
+			}
 		}
 	}
 	// liveness probe: a market crash makes many positions unsafe at once; with no further user activity
